@@ -246,6 +246,9 @@ parseinit(struct scope *s, struct type *t)
 			if (p.cur && !p.sub->type->incomplete && !(p.sub->type->prop & PROPSCALAR))
 				initclear(&p);
 			if (consume(TRBRACE)){
+				/* empty braces at the start of an array's list initialize its first element */
+				if (p.cur == p.sub && p.cur->type->kind == TYPEARRAY)
+					focus(&p);
 				if (p.sub->type->incomplete)
 					error(&tok.loc, "array of unknown size has empty initializer");
 				goto next;
